@@ -268,6 +268,11 @@ class World(object):
 
     def sim_pid(self):
         a = self.sched.current() if self.sched else None
+        if a is not None and a.data.get("pid") is not None:
+            # processes in different pid namespaces (containers or hosts sharing the cache
+            # directory) may well carry the same process id
+            self.probe("process_id_shared_across_namespaces")
+            return int(a.data["pid"])
         return 1000 + (a.id if a is not None else 0)
 
     def violation(self, inv, actor, detail):
@@ -787,6 +792,8 @@ def run_one(cfg, decisions=None, keep_events=False):
             if spec.get("forked_from"):
                 a.data["forked_from"] = spec["forked_from"]
             a.data["release_reload"] = bool(spec.get("release_reload"))
+            if spec.get("pid") is not None:
+                a.data["pid"] = int(spec["pid"])
             if spec.get("precompile"):
                 a.data["precompile"] = [tuple(x) for x in spec["precompile"]]
                 a.data["world"] = world
@@ -807,6 +814,9 @@ def run_one(cfg, decisions=None, keep_events=False):
             sched.events.append((sched.step, "-", "quiescent", None))
             fresh = sched.spawn("F", proc_main, start_at=sched.step)
             fresh.data["loads"] = reqs
+            pids = [spec["pid"] for spec in cfg["actors"] if spec.get("pid") is not None]
+            if pids:
+                fresh.data["pid"] = pids[0]       # the container is started again: its main process has the same id
             fresh_start = sched.step
             sched.step_cap = sched.step + 4 * solo_max * len(reqs)
             sched.run()
@@ -979,6 +989,12 @@ def gen_config(run_seed, tier):
         packager = {"name": "K0", "loads": [], "start_at": pk_.randint(0, solo_max),
                     "precompile": [[pk_.choice(["sphere", "cylinder"]), "double"]]}
         actors.append(packager)
+    ns_ = st["namespaces"]
+    if ns_.random() < 0.15:
+        # containers sharing the cache directory: each one's main process is pid 1
+        for a in actors:
+            if not a.get("forked_from") and ns_.random() < 0.7:
+                a["pid"] = 1
     cfg = {"actors": actors, "policy": policy, "sched_seed": st["schedule"].getrandbits(48),
            "cc_plans": plans, "kills": [], "fresh": "auto", "xdev": c.random() < 0.4}
     if packager and pk_.random() < 0.6:
@@ -1052,6 +1068,14 @@ def sweep_configs(tier):
             cfg["fixed_schedule"] = [first] * step + [second] * (3 * solo)
             cfg["family"] = "single_preemption"
             out.append(cfg)
+    # ... the same with both processes carrying the same process id (two containers)
+    for step in range(1, solo + 1, 2 * stride):
+        cfg = base_config([{"name": "P0", "loads": [[model, "double"]], "start_at": 0, "pid": 1},
+                           {"name": "P1", "loads": [[model, "double"]], "start_at": 0, "pid": 1}])
+        cfg["cc_plans"] = [{"cuts": [0.5], "mode": "append", "fail": None}] * 2
+        cfg["fixed_schedule"] = ["P0"] * step + ["P1"] * (3 * solo)
+        cfg["family"] = "same_pid_two_namespaces"
+        out.append(cfg)
     # double pre-emption: P0 paused at step i, P1 paused at step j, P2 runs to completion, then P1, then P0
     dstride = 24 if tier == "quick" else 8
     for i in range(2, solo + 1, dstride):
